@@ -1229,9 +1229,21 @@ func ruleSetRetryStateless(r *Run, p *Prog, rule string) {
 	}
 	for _, b := range f.Blocks {
 		if isLoopHeader(b) && loopBlocks(b)[claim.Block()] {
+			r.Ob(rule, FnName(f)+"/claims-inside-retry", p.Pos(claim.Pos()), true, true, "every retry claims a fresh ring position")
 			ruleRetryStateless(r, p, rule, f, b)
 			return
 		}
+	}
+	// the fetch-add is outside every loop: a producer that finds a newer bucket in its slot retries
+	// the same, lapped position for ever (Write never returns while the consumer is blocked)
+	hasLoop := false
+	for _, b := range f.Blocks {
+		if isLoopHeader(b) {
+			hasLoop = true
+		}
+	}
+	if hasLoop {
+		r.Ob(rule, FnName(f)+"/claims-inside-retry", p.Pos(claim.Pos()), false, true, "the ring position is claimed once, outside Set's retry loop: after losing its slot to a newer bucket the producer retries the same position and spins until the consumer frees it (with the wrapped writer blocked, Write never returns)")
 	}
 }
 
